@@ -194,7 +194,7 @@ def run_sweep(T, tier, seed, optsets, name='core'):
             sh['rewritten_and_swOK'] += 1 if h.get('swOK') and h.get('rewritten') else 0
             # the end-to-end theorem of THIS option set: C02_switch_same_as_default (s), C02_inline_switch_same_as_default (is),
             # C07_switch_generated_parser (sn); for isn only the Eval-level swOK
-            key = {'s': 'switchSafe', 'is': 'inlineSwitchSafe', 'sn': 'noastSwitchSafe'}.get(r['opts'])
+            key = {'s': 'switchSafe', 'is': 'inlineSwitchSafe', 'sn': 'noastSwitchSafe', 'isn': 'inlineNoastSwitchSafe'}.get(r['opts'])
             safe = bool(h.get(key)) if (key and key in h) else None
             if key and key in h:
                 sh.setdefault('by_opts', {}).setdefault(r['opts'], {'programs': 0, 'rewritten': 0, 'safe': 0, 'rewritten_and_safe': 0})
@@ -215,6 +215,22 @@ def run_sweep(T, tier, seed, optsets, name='core'):
             if not h.get('swOK') or safe is False:
                 res.setdefault('texts', {})[r['id']] = meta[r['id']][4]
     stats['switch_hypotheses'] = sh
+    # every option set: on how many programs of the sweep do the decidable hypotheses of ITS end-to-end theorem hold
+    tc = {}
+    for r in allm:
+        h = model[r['id']].get('hyps') or {}
+        if not h:
+            continue
+        o = r['opts']
+        base = all(h.get(k) for k in ('wfb', 'grammarOK', 'linkedOK', 'plain'))
+        extra = {'': [], 'i': ['grammarOKI'], 'n': ['grammarOKN'], 'in': ['inlineNoastSafe'], 's': ['switchSafe'], 'is': ['inlineSwitchSafe'],
+                 'sn': ['noastSwitchSafe'], 'isn': ['inlineNoastSwitchSafe']}.get(o, [])
+        c = tc.setdefault(o or 'd', {'programs': 0, 'hypotheses_evaluated': 0, 'covered_by_theorem': 0})
+        c['programs'] += 1
+        if all(k in h for k in extra):
+            c['hypotheses_evaluated'] += 1
+            c['covered_by_theorem'] += 1 if base and all(h.get(k) for k in extra) else 0
+    stats['theorem_coverage'] = tc
     for r in mreqs:
         x = realby[r['id']]
         if x.get('irError') or not x.get('ir'):
